@@ -78,6 +78,7 @@ type CheckCtx struct {
 	Bounded  []map[string]any
 	Repo     string
 	VerifDir string
+	OutDir   string
 }
 
 func (cc *CheckCtx) add(it *Item) { cc.Items = append(cc.Items, it) }
@@ -98,6 +99,7 @@ func cmdCheck(args []string) {
 	vdir := fs.String("verif", "/verif", "verif dir")
 	prop := fs.String("prop", "", "property id")
 	tier := fs.String("tier", "quick", "quick|thorough")
+	outDir := fs.String("out", "", "directory for evidence/ and replay/ (default: the verif dir)")
 	timeout := fs.Int("timeout", 0, "solver timeout per attempt (s); default 10 quick / 60 thorough")
 	fs.Parse(args)
 	if *prop == "" {
@@ -122,7 +124,10 @@ func cmdCheck(args []string) {
 		fmt.Printf("VIOLATION property=%s replay=%s no-failing-input-found\n", *prop, writeReplay(*vdir, *prop, "load-error", map[string]any{"error": err.Error()}))
 		os.Exit(1)
 	}
-	cc := &CheckCtx{P: p, Prop: *prop, Tier: *tier, Timeout: *timeout, Repo: *repo, VerifDir: *vdir}
+	cc := &CheckCtx{P: p, Prop: *prop, Tier: *tier, Timeout: *timeout, Repo: *repo, VerifDir: *vdir, OutDir: *outDir}
+	if cc.OutDir == "" {
+		cc.OutDir = *vdir
+	}
 	// 1. contracted functions tagged with this property
 	var results []*FnResult
 	for _, k := range p.contracts.Order {
@@ -303,9 +308,9 @@ func finish(cc *CheckCtx, t0 time.Time, seed int) {
 		"wall_s":      wall,
 		"violations":  len(violations),
 	}
-	os.MkdirAll(filepath.Join(cc.VerifDir, "evidence"), 0o755)
+	os.MkdirAll(filepath.Join(cc.OutDir, "evidence"), 0o755)
 	b, _ := json.MarshalIndent(ev, "", " ")
-	os.WriteFile(filepath.Join(cc.VerifDir, "evidence", cc.Prop+".json"), b, 0o644)
+	os.WriteFile(filepath.Join(cc.OutDir, "evidence", cc.Prop+".json"), b, 0o644)
 	fmt.Printf("property %s tier %s: %d obligations, %d discharged, %d known findings, %d violations, %.1fs\n", cc.Prop, cc.Tier, obligations, discharged, len(known), len(violations), wall)
 	if len(violations) == 0 {
 		os.Exit(0)
@@ -317,7 +322,7 @@ func finish(cc *CheckCtx, t0 time.Time, seed int) {
 		if rp, ok := replayers[it.Kind]; ok && it.Model != "" {
 			reproduced = rp(cc, it, body)
 		}
-		path := writeReplay(cc.VerifDir, cc.Prop, it.Name, body)
+		path := writeReplay(cc.OutDir, cc.Prop, it.Name, body)
 		suffix := ""
 		if !reproduced {
 			suffix = " no-failing-input-found"
